@@ -44,32 +44,79 @@ type c15String struct {
 	ID      string
 	Val     string
 	Hostile bool
+	// Tail: the planted value is "<original value> <Val>" (a validator that only
+	// looks at a prefix or the first word lets it pass).
+	Tail bool
+	// DirTail: the planted value is "<first word of the original value> <Val>"
+	// (Val starts with a legitimate index direction).
+	DirTail bool
+	// Only: restricts the string to path classes with this suffix ("" = all)
+	Only []string
 }
+
+// value returns what is planted at a position whose base value is orig.
+func (s c15String) value(orig string) string {
+	switch {
+	case s.Tail:
+		return orig + " " + s.Val
+	case s.DirTail:
+		return strings.Fields(orig + " x")[0] + " " + s.Val
+	}
+	return s.Val
+}
+
+func (s c15String) appliesTo(class string) bool {
+	if len(s.Only) == 0 {
+		return true
+	}
+	for _, suf := range s.Only {
+		if strings.HasSuffix(class, suf) {
+			return true
+		}
+	}
+	return false
+}
+
+var c15ListClasses = []string{"table.index[][]", "table.unique[][]"}
 
 func c15Strings(tier string) []c15String {
 	ss := []c15String{
-		{"quote-semicolon-comment", "m4rk'; drop table x;--", true},
-		{"dquote-space", `m4rk" `, true},
-		{"paren-semicolon", "m4rk);", true},
-		{"space-desc", "m4rk desc", true},
-		{"dollar-dollar", "m4rk$$", true},
-		{"single-quote", "m4rk'x", true},
-		{"double-quote", `m4rk"x`, true},
-		{"control-hyphen", "m4rk_ok-1", false},
-		{"control-plain", "m4rk_ok1", false},
+		{ID: "quote-semicolon-comment", Val: "m4rk'; drop table x;--", Hostile: true},
+		{ID: "dquote-space", Val: `m4rk" `, Hostile: true},
+		{ID: "paren-semicolon", Val: "m4rk);", Hostile: true},
+		{ID: "space-desc", Val: "m4rk desc", Hostile: true},
+		{ID: "dollar-dollar", Val: "m4rk$$", Hostile: true},
+		{ID: "single-quote", Val: "m4rk'x", Hostile: true},
+		{ID: "double-quote", Val: `m4rk"x`, Hostile: true},
+		// a valid value followed by hostile text: catches validators that look at a prefix / the first word(s) only
+		{ID: "valid-then-tail", Val: "m4rk'; drop table x;--", Hostile: true, Tail: true},
+		{ID: "valid-then-direction-then-tail", Val: "asc ); drop table m4rk;--", Hostile: true, DirTail: true},
+		// index-entry shapes: a direction followed by more text, separators other than one space
+		{ID: "index-direction-tail", Val: "m4rk asc ); drop table x;--", Hostile: true, Only: c15ListClasses},
+		{ID: "index-direction-word", Val: "m4rk desc x", Hostile: true, Only: c15ListClasses},
+		{ID: "index-two-spaces", Val: "m4rk  desc", Hostile: true, Only: c15ListClasses},
+		{ID: "index-direction-comma", Val: "m4rk asc,x", Hostile: true, Only: c15ListClasses},
+		{ID: "index-tab", Val: "m4rk\tdesc); --", Hostile: true, Only: c15ListClasses},
+		{ID: "control-hyphen", Val: "m4rk_ok-1"},
+		{ID: "control-plain", Val: "m4rk_ok1"},
 	}
 	if tier == "thorough" {
 		ss = append(ss,
-			c15String{"semicolon", "m4rk;x", true},
-			c15String{"newline", "m4rk\nx", true},
-			c15String{"comma", "m4rk,x", true},
-			c15String{"comment-open", "m4rk/*", true},
-			c15String{"backslash", `m4rk\x`, true},
-			c15String{"equals", "m4rk=1", true},
+			c15String{ID: "semicolon", Val: "m4rk;x", Hostile: true},
+			c15String{ID: "newline", Val: "m4rk\nx", Hostile: true},
+			c15String{ID: "comma", Val: "m4rk,x", Hostile: true},
+			c15String{ID: "comment-open", Val: "m4rk/*", Hostile: true},
+			c15String{ID: "backslash", Val: `m4rk\x`, Hostile: true},
+			c15String{ID: "equals", Val: "m4rk=1", Hostile: true},
+			c15String{ID: "valid-then-newline-tail", Val: "\n); drop table m4rk;--", Hostile: true, Tail: true},
 		)
 	}
 	return ss
 }
+
+// c15DirectionOnly: an index entry "<identifier> asc|desc" (any number of
+// spaces) is the documented way to give a direction.
+var c15DirectionOnly = regexp.MustCompile(`^[A-Za-z0-9_-]+ +(?i:asc|desc)$`)
 
 func c15NBases(tier string) int {
 	if tier == "thorough" {
